@@ -145,6 +145,9 @@ func (b *buffer) enqueue(op Operation, errorOnFull bool) error {
 			return BufferFullError
 		}
 		b.notFull.Wait()
+		if b.isShutdown {
+			return BufferIsShutdown
+		}
 	}
 
 	switch {
@@ -175,4 +178,5 @@ func (b *buffer) shutdown() {
 	b.cursor = nil
 	b.len = 0
 	b.isShutdown = true
+	b.notFull.Broadcast()
 }
